@@ -6,7 +6,7 @@ import shutil
 import tempfile
 import zlib
 
-from engine import SPEC, gen_states, pool_map
+from engine import REPO, SPEC, gen_states, pool_map
 from readers import zname, read_out, join_lines, run_cli, split_tag, write_text, workdir
 
 DATA = json.load(open(os.path.join(SPEC, "data", "phase_pool.json")))
@@ -83,11 +83,29 @@ def run_case(job):
                 except OSError:
                     pass
             feeder.join(5)
+        status = r["status"] if r["status"] == "ok" else r["status"] + ":" + r["exc"][:40]
+        # a read listed several times with DIFFERENT annotations: whichever row the command takes (any is accepted), it takes the same
+        # one in every process - the same command on the same files is run again in interpreters with other hash seeds
+        byname = {}
+        for row in tsv:
+            byname.setdefault(row[0], set()).add(tuple(row[1:]))
+        if status == "ok" and feeder is None and filler == 0 and any(len(v) > 1 for v in byname.values()) and zlib.crc32(("hs" + str(cid)).encode()) % 4 == 0:
+            import subprocess
+            import sys
+
+            ref_bytes = open(out, "rb").read() if os.path.exists(out) else b""
+            for hs in (1, 2, 3):
+                o2 = os.path.join(d, f"out_hs{hs}.gaf")
+                env = dict(os.environ, PYTHONHASHSEED=str(hs), PYTHONPATH=REPO)
+                p2 = subprocess.run([sys.executable, "-m", "gaftools", "phase", gaf, tp, "-o", o2], env=env, capture_output=True, timeout=120)
+                if p2.returncode != 0 or not os.path.exists(o2) or open(o2, "rb").read() != ref_bytes:
+                    status = "output_depends_on_the_hash_seed_of_the_process"
+                    break
         txt = read_out(out) if os.path.exists(out) else ""
         olines = txt.split("\n")
         if olines and olines[-1] == "":
             olines = olines[:-1]
-        return {"id": cid, "status": r["status"] if r["status"] == "ok" else r["status"] + ":" + r["exc"][:40], "tsv": tsv,
+        return {"id": cid, "status": status, "tsv": tsv,
                 "inp": [split_line(l) for l in lines], "out": [split_line(l) for l in olines], "storage": storage, "raw_out": olines[:3]}
     finally:
         shutil.rmtree(d, ignore_errors=True)
